@@ -82,5 +82,11 @@ def run(ctx):
     # |range h|, and the layers above the multipart stream hand each piece on unchanged
     from . import who
     from . import bodyrules as BR
+    from . import rangeparse as RP
+    from . import C03
+    # "for each satisfiable range in request order": every satisfiable spec of the header is resolved and kept, in order
+    A = RP.analyse(ctx)
+    C03.r2_refinement(ctx, A)
+    C03.r6_order(ctx, A, rule="C06.R5.flow")
     who.entity_bytes_flow(ctx, "C06.R6.flow")
     BR.layers_transparent(ctx, "C06.R6.layers")
